@@ -14,6 +14,7 @@ pub mod c14;
 pub mod c15;
 pub mod c16;
 pub mod c17;
+pub mod c18;
 pub mod c19;
 pub mod c20;
 pub mod l1;
@@ -41,6 +42,7 @@ pub fn get(id: &str, tier: Tier) -> Option<Property> {
         "C15" => c15::property(tier),
         "C16" => c16::property(tier),
         "C17" => c17::property(tier),
+        "C18" => c18::property(tier),
         "C19" => c19::property(tier),
         "C20" => c20::property(tier),
         _ => return None,
